@@ -9,8 +9,10 @@ from .sym import (
 )
 
 
-def diff_all(roots, wrt: Sym, nodes=None):
-    """d(root)/d(wrt) for every root; wrt is a var node. Returns list aligned with roots."""
+def diff_all(roots, wrt: Sym, nodes=None, complex_step=False):
+    """d(root)/d(wrt) for every root; wrt is a var node. Returns list aligned with roots.
+    complex_step=True: what a complex-step approximation of the same code reports, Im f(x + ih) / h for h -> 0: identical
+    to the derivative except that |u| of a perturbed u is a real magnitude and contributes nothing."""
     d = {}
     target = wrt.nid
     if nodes is None:
@@ -60,7 +62,7 @@ def diff_all(roots, wrt: Sym, nodes=None):
             r = mul(mul(const(p), div(n, a)), d[a.nid])
         elif op == "abs":
             a = n.args[0]
-            r = mul(div(n, a), d[a.nid])
+            r = ZERO if complex_step else mul(div(n, a), d[a.nid])
         elif op == "ufn":
             name, index = n.args[0], n.args[1]
             fargs = n.args[2:]
